@@ -13,6 +13,29 @@ Proof.
   intro H. apply andb_true_iff in H as [H _]. exact H.
 Qed.
 
+(* the public disconnect_interface: of an interface that is not a service port; or, by a library that refuses peering
+   ports (proposed C07-10), of any interface *)
+Lemma api_public_disconnect fl i s s' r :
+  WF (sg s) -> subs_under_dedicated (sg s) = true -> cls_is (sg s) i KCP = true ->
+  fl_disc_peering fl || negb (typ_is (sg s) i sServicePort) = true ->
+  public_disconnect fl i s = (s', r) -> WF (sg s').
+Proof.
+  intros W X Ci P H. unfold public_disconnect in H.
+  apply bind_reads in H; [| destruct (fl_disc_peering fl); solve [auto 8 with reads]].
+  destruct H as [[s1 [[] [Hm [Hg H]]]] | [e [Hr Hg]]]; [| rewrite Hg; exact W].
+  destruct (typ_is (sg s) i sServicePort) eqn:Ti.
+  - (* a service port: the library has checked that it has no service-port peer, the call changes nothing *)
+    rewrite orb_false_r in P. rewrite P in Hm.
+    apply bind_inv in Hm as [[s2 [t [H1 Hm]]]|[e [_ Q]]]; [|discriminate Q]. apply type_is_val in H1 as [-> ->].
+    apply bind_inv in Hm as [[s2 [ps [H2 Hm]]]|[e [_ Q]]]; [|discriminate Q]. apply get_peers_val in H2 as [-> Hps].
+    apply guard_ok_val in Hm as [_ G]. rewrite Ti in G. simpl in G.
+    assert (Sn : sane (sg s1)) by (rewrite Hg; apply WF_WFr in W; apply (WFr_sane _ _ _ W)).
+    destruct (disconnect_run i s1 s' r Sn H) as [[G' _]|[p [Esp _]]]; [rewrite G', Hg; exact W|].
+    exfalso. rewrite Hg in Esp. unfold sp_peers in Esp.
+    destruct (raw_peers (sg s) i) as [|x l] eqn:Er; [discriminate Esp|]. rewrite Esp in Hps. subst ps. discriminate G.
+  - rewrite <- Hg in W, X, Ci, Ti. eapply api_disconnect; eauto.
+Qed.
+
 Lemma need_all_cls k : forall l s s' (u : unit), for_each l (need k) s = (s', Ok u) -> forall j, In j l -> cls_is (sg s) j k = true.
 Proof.
   induction l as [|x l IH]; intros s s' u H j Hj; [destruct Hj|]. simpl in H.
@@ -54,9 +77,9 @@ Proof.
     peel R W. peel R W. apply resolve_cls in Hm. apply resolve_cls in Hm0.
     destruct (api_connect fl sub s0 i _ _ _ W P1 Hm Hm0 P3 R) as [X|[X _]]; [exact X | congruence].
   - (* disconnect_interface *)
-    apply andb_true_iff in P as [P1 P2]. apply negb_true_iff in P2.
+    apply andb_true_iff in P as [P1 P2].
     peel R W. peel R W. apply resolve_cls in Hm0.
-    eapply api_disconnect; eauto.
+    eapply api_public_disconnect; eauto.
   - (* peer *)
     peel R W. peel R W. apply resolve_cls in Hm. apply resolve_cls in Hm0.
     eapply api_peer; [exact W | exact Hm | exact Hm0 | | exact R].
